@@ -170,6 +170,9 @@ def run(ctx):
     ctx.rule("UNI-2", "`x?` is built from the alternative that is not the one known to be empty")
     ctx.rule("UNI-3", "a removed common prefix is re-attached in front and a removed common suffix behind the factored rest")
     uni(ctx, lib)
+    ctx.rule("BRZ-1", "every update of the equation system in the state-elimination function has the shape of Brzozowski's algebraic method "
+                      "(b[n]=a[n,n]*b[n]; a[n,j]=a[n,n]*a[n,j]; b[i]=b[i]+a[i,n]b[n]; a[i,j]=a[i,j]+a[i,n]a[n,j]; n = reversed loop variable)")
+    brz1(ctx, lib)
 
 
 # ----------------------------------------------------------------------------- necessary conditions inside union()
@@ -275,3 +278,114 @@ def uni(ctx, lib):
             else:
                 ctx.ok("UNI-3", "%s:%s re-attached as operand %d" % (body.path, kinds[0][1], kinds[0][0] + 1), None, body.loc(t.get("line")))
     ctx.floor("UNI-3", "re-attachments of a removed common prefix/suffix", n3, 2)
+
+
+# ----------------------------------------------------------------------------- BRZ-1: state elimination follows the algebraic schema
+
+def brz1(ctx, lib):
+    """In the function that eliminates states (ndarray system a[i,j], b[i]) every update has the shape of Brzozowski's method:
+         b[n]   = a[n,n]* . b[n]            a[n,j] = a[n,n]* . a[n,j]
+         b[i]   = b[i] + a[i,n] . b[n]      a[i,j] = a[i,j] + a[i,n] . a[n,j]
+       with n the variable of the reversed outer loop."""
+    from sa import guards
+    fs = [b for b in lib.bodies if b.kind == "assoc_fn" and b.sig_output == EXPR and any(t.startswith("dfa::Dfa") for t in b.sig_inputs)]
+    if len(fs) != 1:
+        ctx.anchor_lost("BRZ-1", "Expression::from(Dfa, ..) (found %d)" % len(fs))
+        return
+    F = fs[0]
+    fi = guards.FnInfo.of(F)
+    d = fi.defs
+
+    def lv(o):
+        """loop variable identity: block of the `next` call it comes from (and whether the iterator is reversed)"""
+        o = local.peel(o)
+        for x in local.walk(o):
+            if x[0] == "call" and x[1].endswith("::next"):
+                # adapters on the iterator itself (receiver chain), not in its bounds
+                chain = []
+                cur = local.peel(x[2][0]) if x[2] else None
+                while cur is not None and cur[0] == "call" and cur[2]:
+                    chain.append(cur[1])
+                    cur = local.peel(cur[2][0])
+                rev = any(c.endswith("::rev") for c in chain)
+                enum = any(c.endswith("::enumerate") for c in chain)
+                return ("v", x[3], rev, enum)
+        return None
+
+    def term(o, depth=0):
+        o = local.peel(o)
+        if depth > 8:
+            return ("?",)
+        if o[0] == "call":
+            n = o[1]
+            if "Index<I> for ndarray::ArrayBase" in n or "IndexMut<I> for ndarray::ArrayBase" in n:
+                idx = local.peel(o[2][1])
+                if idx[0] == "agg" and idx[1] == "tuple":
+                    return ("a", lv(idx[3][0]), lv(idx[3][1]))
+                return ("b", lv(idx))
+            cb = lib.body(n)
+            if cb is not None:
+                return (n.rsplit("::", 1)[1],) + tuple(term(a, depth + 1) for a in o[2][:2] if True)
+        return ("?", local.show(o)[:40])
+
+    stores = []
+    for bi, t in F.calls():
+        n = callee_name(t) or ""
+        if "IndexMut<I> for ndarray::ArrayBase" not in n:
+            continue
+        dest = t["dest"]["l"]
+        tgt = term(("call", n, [d.operand(a) for a in t["args"]], bi))
+        rhs = None
+        for bj, blk in F.iter_blocks():
+            for s in blk["stmts"]:
+                if s["k"] == "assign" and s["place"]["l"] == dest and s["place"]["proj"] and s["place"]["proj"][0]["k"] == "deref":
+                    rhs = d.rvalue(s["rv"])
+        if rhs is None:
+            continue
+        stores.append((t.get("line"), tgt, term(rhs) if local.peel(rhs)[0] == "call" else ("other", local.show(rhs)[:60]), rhs))
+    elim = [(ln, tg, r) for ln, tg, r, _ in stores if r[0] in ("concatenate", "union") and not any(v and v[3] for v in tg[1:] if isinstance(v, tuple))]
+    if not ctx.floor("BRZ-1", "elimination updates (stores of concatenate/union results into the equation system)", len(elim), 4):
+        return
+    nvars = {v for _, tg, _ in elim for v in tg[1:] if isinstance(v, tuple) and v[2]}
+    if len(nvars) != 1:
+        ctx.undecided("BRZ-1", F.path, "expected exactly one reversed elimination loop variable, found %d" % len(nvars), F.loc())
+        return
+    N = list(nvars)[0]
+    names = set()
+    for ln, tg, r in elim:
+        ok = False
+        why = ""
+        if r[0] == "concatenate" and len(r) == 3 and r[1][0] == "repeat_zero_or_more_times":
+            star = r[1][1]
+            rest = r[2]
+            if tg[0] == "b":
+                ok = star == ("a", N, N) and rest == ("b", N) and tg == ("b", N)
+                why = "expected b[n] = a[n,n]* . b[n]"
+            else:
+                ok = star == ("a", N, N) and tg[1] == N and rest == tg and tg[2] != N
+                why = "expected a[n,j] = a[n,n]* . a[n,j]"
+        elif r[0] == "union" and len(r) == 3 and r[2][0] == "concatenate" and len(r[2]) == 3:
+            old, (_, left, right) = r[1], r[2]
+            if tg[0] == "b":
+                ok = old == tg and left == ("a", tg[1], N) and right == ("b", N) and tg[1] != N
+                why = "expected b[i] = b[i] + a[i,n] . b[n]"
+            else:
+                ok = old == tg and left == ("a", tg[1], N) and right == ("a", N, tg[2]) and tg[1] != N and tg[2] != N
+                why = "expected a[i,j] = a[i,j] + a[i,n] . a[n,j]"
+        else:
+            why = "update is neither x = a[n,n]* . x nor x = x + a[i,n] . y"
+        if ok:
+            ctx.ok("BRZ-1", "%s:%s" % (F.path, why.replace("expected ", "")), None, F.loc(ln))
+        else:
+            ctx.violation("BRZ-1", (F.path, why.replace("expected ", "")), "state-elimination update at this line does not have the shape of the algebraic method (%s); "
+                          "found target %s, value %s" % (why, _t(tg, N), _t(r, N)), F.loc(ln))
+
+
+def _t(t, N):
+    if not isinstance(t, tuple):
+        return str(t)
+    if t and t[0] == "v":
+        return "n" if t == N else "v%d" % t[1]
+    if t and t[0] in ("a", "b"):
+        return "%s[%s]" % (t[0], ",".join(_t(x, N) for x in t[1:]))
+    return "%s(%s)" % (t[0], ", ".join(_t(x, N) for x in t[1:]))
